@@ -549,10 +549,22 @@ fn typed_write<T: vm_memory::ByteValued, S: BitmapSlice>(s: &VolatileSlice<S>, o
             "ref_at.store"
         }
         _ => {
-            // copy_from on the sub-slice starting at off
+            // copy_from on the sub-slice starting at off; one time in two the destination is a
+            // window whose length is NOT a multiple of the element size (or shorter than one
+            // element) and the buffer holds more elements than fit: only whole elements are written
+            let n = payload.len() / es;
+            let mut buf: Vec<T> = (0..n).map(|i| t_from_bytes::<T>(&payload[i * es..(i + 1) * es])).collect();
+            if es > 1 && payload.len() >= es && r.chance(1, 2) {
+                let k = (payload.len() + r.usize_below(es)).saturating_sub(r.usize_below(2 * es));
+                if let Ok(sub) = s.subslice(off, k) {
+                    for _ in 0..2 {
+                        buf.push(t_from_bytes::<T>(&payload[..es]));
+                    }
+                    sub.copy_from(&buf);
+                    return "copy_from(window-not-a-multiple-of-the-element)";
+                }
+            }
             if let Ok(sub) = s.offset(off) {
-                let n = payload.len() / es;
-                let buf: Vec<T> = (0..n).map(|i| t_from_bytes::<T>(&payload[i * es..(i + 1) * es])).collect();
                 sub.copy_from(&buf);
             }
             "copy_from"
